@@ -12,8 +12,8 @@ from fractions import Fraction
 REPO = os.environ.get("VERIF_REPO", "/repo")
 CORE = os.path.join(REPO, "rust/core/src")
 VERIF = os.path.dirname(os.path.dirname(os.path.abspath(__file__)))
-GEN = os.path.join(VERIF, "lean/LucidModel/Gen")
-BUILD = os.path.join(VERIF, "build")
+GEN = os.environ.get("VERIF_GEN_OUT") or os.path.join(VERIF, "lean/LucidModel/Gen")
+BUILD = os.environ.get("VERIF_GEN_BUILD") or os.path.join(VERIF, "build")
 
 
 class TieBroken(Exception):
@@ -23,6 +23,27 @@ class TieBroken(Exception):
 def need(cond, msg):
     if not cond:
         raise TieBroken(msg)
+
+
+NOTES = []
+
+
+def soft(cond, msg):
+    """a code shape that the correspondence run observes directly (named seam in the message): when the text no
+    longer matches, the tie is carried by that seam alone; recorded in build/gen_manifest.json, not an alarm"""
+    if not cond:
+        NOTES.append(msg)
+
+
+def code(rel):
+    """non-test source without comments, all white space runs collapsed to one space"""
+    return re.sub(r"\s+", " ", strip_comments(nontest(read(rel))))
+
+
+def entries_cover(blk, pattern, where):
+    """every character of a table block is part of a parsed entry, a comma or white space"""
+    rest = re.sub(pattern, "", blk)
+    need(re.sub(r"[\s,]", "", rest) == "", f"{where}: unparsed text in table: {rest.strip()[:60]!r}")
 
 
 def read(rel):
@@ -89,7 +110,7 @@ CHR = r"'((?:[^'\\]|\\u\{[0-9a-fA-F_]+\}|\\.))'"
 
 
 def const_block(src, name):
-    m = re.search(r"const\s+" + name + r"\s*:[^=]*=\s*&\[(.*?)\n?\];", src, re.S)
+    m = re.search(r"const\s+" + name + r"\s*:[^=]*=\s*&\[(.*?)\]\s*;", src, re.S)
     return None if m is None else m.group(1)
 
 
@@ -124,73 +145,80 @@ def nat_list(xs):
 
 def parse_consts():
     info = {}
-    word = nontest(read("matching/word.rs"))
+    word = code("matching/word.rs")
     for key, name in (("len", "LENGTH_THRESHOLD"), ("jac", "JACCARD_THRESHOLD"), ("dam", "DAMLEV_THRESHOLD")):
         f = decimal_const(word, name, "matching/word.rs")
         info[key] = (f.numerator, f.denominator)
-    # the comparisons the model hard-wires
-    need(re.search(r"dist\s*<\s*LENGTH_THRESHOLD", word), "word.rs: `dist < LENGTH_THRESHOLD` shape changed")
-    need(re.search(r"dist\s*<\s*JACCARD_THRESHOLD", word), "word.rs: `dist < JACCARD_THRESHOLD` shape changed")
-    need(re.search(r"rel\s*>\s*DAMLEV_THRESHOLD\s*\{\s*continue", word), "word.rs: `rel > DAMLEV_THRESHOLD {continue}` shape changed")
-    dl = nontest(read("matching/damlev/mod.rs"))
+    # the comparisons the model hard-wires; all three are observed by the `wm` seam (which gate rejected a pair)
+    soft(re.search(r"\w+ ?< ?LENGTH_THRESHOLD", word), "word.rs: `dist < LENGTH_THRESHOLD` not found as text (seam: wm)")
+    soft(re.search(r"\w+ ?< ?JACCARD_THRESHOLD", word), "word.rs: `dist < JACCARD_THRESHOLD` not found as text (seam: wm)")
+    soft(re.search(r"\w+ ?> ?DAMLEV_THRESHOLD ?\{ ?continue", word), "word.rs: `rel > DAMLEV_THRESHOLD {continue}` not found as text (seam: wm)")
+    dl = code("matching/damlev/mod.rs")
     costs = {}
     for name in ("COST_TRANS", "COST_DOUBLE", "COST_VOWEL", "COST_NOTALPHA", "COST_CONSONANT", "COST_DEFAULT"):
         f = decimal_const(dl, name, "damlev/mod.rs") * 10
         need(f.denominator == 1, f"damlev/mod.rs: {name} is not a multiple of 0.1; the model counts typos in tenths")
         costs[name] = int(f)
     info["costs"] = costs
-    m = re.search(r"fn get_cost\(class: &CharClass\) -> f64 \{\s*match class \{(.*?)\}\s*\}", dl, re.S)
-    need(m, "damlev/mod.rs: get_cost shape changed")
-    arms = re.findall(r"(CharClass::(\w+)|_)\s*=>\s*(COST_\w+)", m.group(1))
-    want = [("Consonant", "COST_CONSONANT"), ("Vowel", "COST_VOWEL"), ("NotAlpha", "COST_NOTALPHA"), ("", "COST_DEFAULT")]
+    # the class -> cost function: any fn taking a &CharClass and returning f64 whose body is one match over the class
+    m = re.search(r"fn \w+\( ?\w+ ?: ?&CharClass ?\) ?-> ?f64 ?\{ ?match \*?\w+ ?\{(.*?)\} ?\}", dl)
+    need(m, "damlev/mod.rs: class-cost function (fn f(c: &CharClass) -> f64 { match c { … } }) not found")
+    arms = re.findall(r"(CharClass::(\w+)|_) ?=> ?(COST_\w+)", m.group(1))
+    entries_cover(m.group(1), r"(CharClass::\w+|_) ?=> ?COST_\w+", "damlev/mod.rs class-cost match")
     got = [(a[1], a[2]) for a in arms]
     info["get_cost"] = got
     # the model's getCost takes the cost *value* per class from here, so a remapped arm follows the source
     cls_cost = {}
     for cls, cname in got:
-        need(cname in costs, f"get_cost refers to unknown {cname}")
+        need(cname in costs, f"class-cost function refers to unknown {cname}")
         cls_cost[cls] = costs[cname]
-    need(set(cls_cost) == {"Consonant", "Vowel", "NotAlpha", ""}, f"damlev/mod.rs: get_cost arms changed: {got}")
+    need(set(cls_cost) == {"Consonant", "Vowel", "NotAlpha", ""}, f"damlev/mod.rs: class-cost arms changed: {got}")
     info["cls_cost"] = cls_cost
     info["matCap"] = usize_const(dl, "DEFAULT_CAPACITY", "damlev/mod.rs")
-    need(re.search(r"DistMatrix::new\(DEFAULT_CAPACITY \+ 2\)", dl), "damlev/mod.rs: initial matrix size shape changed")
-    mat = nontest(read("matching/damlev/matrix.rs"))
-    need(re.search(r"let size = size \+ size / 2;", mat), "matrix.rs: growth factor shape changed (model: size + size/2)")
-    need(re.search(r"max!\(coefs1\.len\(\) \+ 2, coefs2\.len\(\) \+ 2\)", mat), "matrix.rs: needed-size shape changed")
-    st = read("store/mod.rs")
+    # initial dimension, growth rule and needed size are observed by the `dist` seam (dimension and buffer length
+    # are part of every observation line, exact-fit and growth sub-streams)
+    soft(re.search(r"DistMatrix::new\( ?DEFAULT_CAPACITY ?\+ ?2 ?\)", dl), "damlev/mod.rs: `DistMatrix::new(DEFAULT_CAPACITY + 2)` not found as text (seam: dist)")
+    mat = code("matching/damlev/matrix.rs")
+    soft(re.search(r"(\w+) ?\+ ?\1 ?/ ?2 ?;", mat), "matrix.rs: growth `size + size / 2` not found as text (seam: dist)")
+    soft(re.search(r"max!\( ?\w+\.len\(\) ?\+ ?2 ?, ?\w+\.len\(\) ?\+ ?2 ?\)", mat), "matrix.rs: `max!(a.len() + 2, b.len() + 2)` not found as text (seam: dist)")
+    st = code("store/mod.rs")
     info["defaultLimit"] = usize_const(st, "DEFAULT_LIMIT", "store/mod.rs", kw=r"pub static")
-    store = nontest(read("store/store.rs"))
-    m = re.search(r"dividers:\s*\(vec!\[(.*?)\],\s*vec!\[(.*?)\]\)", store)
+    store = code("store/store.rs")
+    m = re.search(r"dividers ?: ?\( ?vec!\[(.*?)\] ?, ?vec!\[(.*?)\] ?\)", store)
     need(m, "store.rs: default dividers shape changed")
     info["dividerL"] = [unescape(x)[0] for x in re.findall(CHR, m.group(1))]
     info["dividerR"] = [unescape(x)[0] for x in re.findall(CHR, m.group(2))]
-    ti = nontest(read("store/trigram_index.rs"))
-    m = re.search(r"limit_sort_unstable\(size \* ([0-9]+),", ti)
-    need(m, "trigram_index.rs: candidate cap `size * N` shape changed")
+    ti = code("store/trigram_index.rs")
+    m = re.search(r"limit_sort_unstable\( ?\w+ ?\* ?([0-9]+) ?,", ti)
+    need(m, "trigram_index.rs: candidate cap `limit_sort_unstable(size * N, …)` not found")
     info["prepFactor"] = int(m.group(1))
-    ls = nontest(read("utils/limitsort.rs"))
-    m = re.search(r"if buffer\.len\(\) >= limit \* ([0-9]+) \{", ls)
-    need(m, "limitsort.rs: `buffer.len() >= limit * N` shape changed")
+    ls = code("utils/limitsort.rs")
+    m = re.search(r"\w+\.len\(\) ?>= ?\w+ ?\* ?([0-9]+)", ls)
+    need(m, "limitsort.rs: `buffer.len() >= limit * N` not found")
     info["sortFactor"] = int(m.group(1))
-    nz = nontest(read("lang/normalize.rs"))
+    nz = code("lang/normalize.rs")
     need(usize_const(nz, "NORM_MAX_PATTERN_LEN", "normalize.rs") == 2, "normalize.rs: NORM_MAX_PATTERN_LEN != 2 (model hard-wires a two-character window)")
-    cc = strip_comments(nontest(read("lang/char_class.rs")))
-    m = re.search(r"fn is_punctuation\(ch: char\) -> bool \{\s*match ch \{(.*?)_ => false", cc, re.S)
+    cc = code("lang/char_class.rs")
+    m = re.search(r"fn is_punctuation\( ?\w+ ?: ?char ?\) ?-> ?bool ?\{ ?(?:match \w+ ?\{(.*?)_ ?=> ?false|matches!\( ?\w+ ?,(.*?)\) ?\})", cc)
     need(m, "char_class.rs: is_punctuation shape changed")
-    info["punctuation"] = [unescape(x)[0] for x in re.findall(CHR, m.group(1))]
-    need(all(re.search(r"=> true", l) for l in m.group(1).strip().split("\n") if l.strip()), "char_class.rs: is_punctuation arm not `=> true`")
-    wd = nontest(read("tokenization/word.rs"))
-    m = re.search(r"fn is_function\(&self\) -> bool \{\s*match self\.pos\(\) \{(.*?)_ => false", wd, re.S)
+    body = m.group(1) if m.group(1) is not None else m.group(2)
+    info["punctuation"] = [unescape(x)[0] for x in re.findall(CHR, body)]
+    entries_cover(body, CHR + r"|=> ?true|\|", "char_class.rs is_punctuation")
+    wd = code("tokenization/word.rs")
+    m = re.search(r"fn is_function\( ?&self ?\) ?-> ?bool ?\{ ?(?:match self\.pos\(\) ?\{(.*?)_ ?=> ?false|matches!\( ?self\.pos\(\) ?,(.*?)\) ?\})", wd)
     need(m, "tokenization/word.rs: is_function shape changed")
-    info["funcPos"] = re.findall(r"Some\(PartOfSpeech::(\w+)\)\s*=> true", m.group(1))
+    body = m.group(1) if m.group(1) is not None else m.group(2)
+    info["funcPos"] = re.findall(r"Some\( ?PartOfSpeech::(\w+) ?\)", body)
+    entries_cover(body, r"Some\( ?PartOfSpeech::\w+ ?\)|=> ?true|\|", "tokenization/word.rs is_function")
+    need(all(p in POS for p in info["funcPos"]), "tokenization/word.rs: unknown part of speech in is_function")
     # score order
-    sc = nontest(read("search/score.rs"))
-    m = re.search(r"pub enum ScoreType \{(.*?)\}", sc, re.S)
+    sc = code("search/score.rs")
+    m = re.search(r"pub enum ScoreType ?\{(.*?)\}", sc)
     need(m, "score.rs: enum ScoreType not found")
-    variants = [(n, int(v)) for n, v in re.findall(r"(\w+)\s*=\s*([0-9]+)", m.group(1))]
+    variants = [(n, int(v)) for n, v in re.findall(r"(\w+) ?= ?([0-9]+)", m.group(1))]
     need(sorted(v for _, v in variants) == list(range(len(variants))), "score.rs: ScoreType discriminants are not 0..n-1")
     need(usize_const(sc, "SCORES_SIZE", "score.rs", kw=r"pub const") == len(variants), "score.rs: SCORES_SIZE != number of ScoreType variants")
-    assign = dict(re.findall(r"hit\.scores\[ScoreType::(\w+)\]\s*=\s*(\w+)\(hit\);", sc))
+    assign = dict(re.findall(r"hit\.scores\[ ?ScoreType::(\w+) ?\] ?= ?(\w+)\( ?hit ?\) ?;", sc))
     fn_kind = {"score_chars_up": "chars", "score_words_up": "words", "score_tails_down": "tails", "score_trans_down": "trans",
                "score_fin_up": "fin", "score_offset_down": "offset", "score_rating_up": "rating",
                "score_word_len_down": "wordLen", "score_char_len_down": "charLen"}
@@ -200,36 +228,48 @@ def parse_consts():
         need(assign[name] in fn_kind, f"score.rs: unknown score function {assign[name]}")
         order[disc] = fn_kind[assign[name]]
     info["scoreOrder"] = order
-    cmp_src = nontest(read("search/sort.rs"))
-    need(re.search(r"\.map\(\|\(s1, s2\)\| s2\.cmp\(s1\)\)", cmp_src), "sort.rs: descending component comparison shape changed")
+    cmp_src = code("search/sort.rs")
+    # direction and lexicographic order of the component comparison: observed by the search correspondence and p07/p08
+    soft(re.search(r"\.map\( ?\| ?\( ?s1 ?, ?s2 ?\) ?\| ?s2\.cmp\( ?s1 ?\) ?\)", cmp_src), "sort.rs: `.map(|(s1, s2)| s2.cmp(s1))` not found as text (seam: search order, tm score vector)")
     # tokenizer pipelines
-    tk = nontest(read("tokenization/mod.rs"))
+    tk = code("tokenization/mod.rs")
+    pats = {n: b for n, b in re.findall(r"const (\w+) ?: ?&\[ ?CharClass ?\] ?= ?&\[(.*?)\] ?;", tk)}
+    pats.update({n: b for n, b in re.findall(r"const (\w+) ?: ?\[ ?CharClass ?; ?\d+ ?\] ?= ?\[(.*?)\] ?;", tk)})
     info["steps"] = {}
     for fn in ("tokenize_query", "tokenize_record"):
-        m = re.search(r"pub fn " + fn + r"\(source: &str, lang: &Lang\) -> TextOwn \{\s*Text::from_str\(source\)(.*?)\n\}", tk, re.S)
-        need(m, f"tokenization/mod.rs: {fn} shape changed")
+        m = re.search(r"pub fn " + fn + r"\( ?(\w+) ?: ?&str ?, ?(\w+) ?: ?&Lang ?\) ?-> ?TextOwn ?\{ ?Text::from_str\( ?\1 ?\)(.*?) ?\}(?= ?(?:pub |fn |const |#\[|$))", tk)
+        need(m, f"tokenization/mod.rs: {fn} is no longer one chain of steps on Text::from_str(source)")
         steps = []
-        for call, arg in re.findall(r"\.(\w+)\((.*?)\)\s*(?=\.|$)", m.group(1).strip(), re.S):
-            arg = arg.strip()
-            if call == "normalize":
-                steps.append(".normalize")
+        chain = m.group(3).strip()
+        step_re = r"\.(\w+)\((.*?)\) ?(?=\.|$)"
+        for mm in re.finditer(step_re, chain):
+            call, arg = mm.group(1), mm.group(2).strip()
+            if call in ("normalize", "set_pos", "set_char_classes", "set_stem"):
+                need(arg == m.group(2), f"{fn}: {call}({arg}): expected ({m.group(2)})")
+                steps.append({"normalize": ".normalize", "set_pos": ".setPos", "set_char_classes": ".setCharClasses", "set_stem": ".setStem"}[call])
+            elif call == "lower":
+                need(arg == "", f"{fn}: lower({arg})")
+                steps.append(".lower")
             elif call == "fin":
                 need(arg in ("true", "false"), f"{fn}: fin({arg})")
                 steps.append(f".fin {arg}")
             elif call in ("split", "strip"):
-                cls = re.findall(r"CharClass::(\w+)", arg)
+                pm = re.fullmatch(r"(.*), ?(\w+)", arg)
+                need(pm and pm.group(2) == m.group(2), f"{fn}: {call}({arg}): expected (<pattern>, {m.group(2)})")
+                pat = pm.group(1).strip()
+                lit = re.fullmatch(r"&\[(.*)\]", pat)
+                if lit:
+                    body = lit.group(1)
+                else:
+                    need(re.fullmatch(r"&?\w+", pat) and pat.lstrip("&") in pats, f"{fn}: {call}({arg}): pattern is neither a literal nor a const of this file")
+                    body = pats[pat.lstrip("&")]
+                cls = re.findall(r"CharClass::(\w+)", body)
                 need(cls and all(c in CLASS for c in cls), f"{fn}: {call}({arg})")
+                entries_cover(body, r"CharClass::\w+", f"{fn}: {call} pattern")
                 steps.append(f".{call} " + lst("CharClass." + CLASS[c] for c in cls))
-            elif call == "lower":
-                steps.append(".lower")
-            elif call == "set_pos":
-                steps.append(".setPos")
-            elif call == "set_char_classes":
-                steps.append(".setCharClasses")
-            elif call == "set_stem":
-                steps.append(".setStem")
             else:
                 raise TieBroken(f"{fn}: unknown tokenizer step .{call}({arg})")
+        need(re.sub(step_re, "", chain).strip() == "", f"{fn}: text between tokenizer steps not understood: {chain[:80]!r}")
         info["steps"][fn] = steps
     return info
 
@@ -242,30 +282,32 @@ def parse_lang(code, fname, latin):
     for key, name in (("compose", "UTF_COMPOSE_MAP"), ("reduce", "UTF_REDUCE_MAP")):
         blk = const_block(src, name)
         need(blk is not None, f"lang_{fname}.rs: {name} not found")
-        pairs = re.findall(r"\(\s*" + STR + r"\s*,\s*" + STR + r"\s*\)", blk)
-        need(len(pairs) == len([l for l in blk.split("\n") if l.strip().startswith("(")]), f"lang_{fname}.rs: unparsed entry in {name}")
+        pairs = re.findall(r"\(\s*" + STR + r"\s*,\s*" + STR + r"\s*,?\s*\)", blk)
+        entries_cover(blk, r"\(\s*" + STR + r"\s*,\s*" + STR + r"\s*,?\s*\)", f"lang_{fname}.rs {name}")
         out[key] = [(unescape(a), unescape(b)) for a, b in pairs]
     blk = const_block(src, "FUNCTION_WORDS")
     need(blk is not None, f"lang_{fname}.rs: FUNCTION_WORDS not found")
-    ents = re.findall(r"\(\s*(?:PartOfSpeech::)?(\w+)\s*,\s*" + STR + r"\s*\)", blk)
-    need(len(ents) == len([l for l in blk.split("\n") if l.strip().startswith("(")]), f"lang_{fname}.rs: unparsed entry in FUNCTION_WORDS")
+    ents = re.findall(r"\(\s*(?:PartOfSpeech::)?(\w+)\s*,\s*" + STR + r"\s*,?\s*\)", blk)
+    entries_cover(blk, r"\(\s*(?:PartOfSpeech::)?\w+\s*,\s*" + STR + r"\s*,?\s*\)", f"lang_{fname}.rs FUNCTION_WORDS")
     need(all(p in POS for p, _ in ents), f"lang_{fname}.rs: unknown part of speech")
     out["func"] = [(p, unescape(w)) for p, w in ents]
     blk = const_block(src, "CHAR_CLASSES")
     need(blk is not None, f"lang_{fname}.rs: CHAR_CLASSES not found")
-    ents = re.findall(r"\(\s*(?:CharClass::)?(\w+)\s*,\s*" + CHR + r"\s*\)", blk)
-    need(len(ents) == len([l for l in blk.split("\n") if l.strip().startswith("(")]), f"lang_{fname}.rs: unparsed entry in CHAR_CLASSES")
+    ents = re.findall(r"\(\s*(?:CharClass::)?(\w+)\s*,\s*" + CHR + r"\s*,?\s*\)", blk)
+    entries_cover(blk, r"\(\s*(?:CharClass::)?\w+\s*,\s*" + CHR + r"\s*,?\s*\)", f"lang_{fname}.rs CHAR_CLASSES")
     own = [(c, unescape(ch)[0]) for c, ch in ents]
-    m = re.search(r"pub fn lang_" + fname + r"\(\) -> Lang \{(.*?)\n\}", src, re.S)
-    need(m, f"lang_{fname}.rs: lang_{fname}() not found")
-    body = m.group(1)
-    calls = re.findall(r"lang\.(set_stemmer|add_unicode_composition|add_unicode_reduction|add_pos|add_char_class)\b", body)
-    loops = re.findall(r"for\s+.*?\s+in\s+(\w+)\s*\{\s*lang\.(\w+)\(", body)
-    want = [("UTF_COMPOSE_MAP", "add_unicode_composition"), ("UTF_REDUCE_MAP", "add_unicode_reduction"),
+    flat = re.sub(r"\s+", " ", src)
+    m = re.search(r"pub fn lang_" + fname + r" ?\( ?\) ?-> ?Lang ?\{ ?let mut (\w+) ?= ?Lang::new\( ?\) ?;(.*?) \1 ?\}", flat)
+    need(m, f"lang_{fname}.rs: lang_{fname}() is no longer `let mut lang = Lang::new(); …; lang`")
+    lv, body = m.group(1), m.group(2)
+    # the order in which the tables are loaded matters (later entries override / function words are registered
+    # under composed and reduced spelling): statements in order
+    stmts = re.findall(r"(?:for [^{]*? in &?(\w+) ?\{ ?" + lv + r"\.(\w+)\([^;]*?\) ?; ?\}|" + lv + r"\.(\w+)\()", body)
+    seq = [(a, b) if b else ("", c) for a, b, c in stmts]
+    want = [("", "set_stemmer"), ("UTF_COMPOSE_MAP", "add_unicode_composition"), ("UTF_REDUCE_MAP", "add_unicode_reduction"),
             ("FUNCTION_WORDS", "add_pos"), ("CHAR_CLASSES_LATIN", "add_char_class"), ("CHAR_CLASSES", "add_char_class")]
-    need(loops == want, f"lang_{fname}.rs: table loading order changed: {loops}")
-    need(calls[0] == "set_stemmer", f"lang_{fname}.rs: set_stemmer not first")
-    m = re.search(r"set_stemmer\(Some\(Stemmer::create\(Algorithm::(\w+)\)\)\)", body)
+    need(seq == want, f"lang_{fname}.rs: table loading order changed: {seq}")
+    m = re.search(r"set_stemmer\( ?Some\( ?Stemmer::create\( ?Algorithm::(\w+) ?\) ?\) ?\)", body)
     need(m, f"lang_{fname}.rs: stemmer shape changed")
     out["stemmer"] = m.group(1)
     out["classes"] = latin + own
@@ -276,8 +318,8 @@ def parse_latin():
     src = strip_comments(read("lang/constants.rs"))
     blk = const_block(src, "CHAR_CLASSES_LATIN")
     need(blk is not None, "constants.rs: CHAR_CLASSES_LATIN not found")
-    ents = re.findall(r"\(\s*(?:CharClass::)?(\w+)\s*,\s*" + CHR + r"\s*\)", blk)
-    need(len(ents) == len([l for l in blk.split("\n") if l.strip().startswith("(")]), "constants.rs: unparsed entry")
+    ents = re.findall(r"\(\s*(?:CharClass::)?(\w+)\s*,\s*" + CHR + r"\s*,?\s*\)", blk)
+    entries_cover(blk, r"\(\s*(?:CharClass::)?\w+\s*,\s*" + CHR + r"\s*,?\s*\)", "constants.rs CHAR_CLASSES_LATIN")
     return [(c, unescape(ch)[0]) for c, ch in ents]
 
 
@@ -382,13 +424,13 @@ def main():
         for name, content in (("Consts.lean", emit_consts(info)), ("Langs.lean", emit_langs(langs)), ("Sites.lean", emit_sites(sites))):
             if write_if_changed(os.path.join(GEN, name), content):
                 changed.append(name)
-        man = {"ok": True, "changed": changed, "consts": {k: v for k, v in info.items()},
+        man = {"ok": True, "changed": changed, "soft_notes": NOTES, "consts": {k: v for k, v in info.items()},
                "langs": {code: {"compose": len(t["compose"]), "reduce": len(t["reduce"]), "func": len(t["func"]),
                                 "classes": len(t["classes"]), "stemmer": t["stemmer"]} for code, t in langs},
                "unchecked_sites": [[r, l, n] for r, l, n in sites]}
         with open(man_path, "w") as f:
             json.dump(man, f, indent=1, ensure_ascii=False, default=str)
-        print("gen_tables: ok; changed:", changed)
+        print("gen_tables: ok; changed:", changed, ("; text shapes left to the correspondence seams: " + "; ".join(NOTES)) if NOTES else "")
         return 0
     except TieBroken as e:
         # keep the last good manifest (constants for the oracle checks); record the error separately
